@@ -276,6 +276,65 @@ pub open spec fn tx_view(t: &BaseTransaction, ks: u64, key: Seq<u8>) -> Option<S
         r.nonce == nonce, r.durability is None,
 //@end
 
+// ---- read-modify-write helpers (src/tx/write_tx.rs). Rule R-REFARG: `self.get(keyspace, &key)` hands two REFERENCES to generic `AsRef`
+// parameters; std resolves them through its blanket `impl<T: AsRef<U>> AsRef<U> for &T { fn as_ref(&self) -> &U { (**self).as_ref() } }`,
+// which Verus cannot name. ByRef spells that impl out: a wrapper around the reference whose `as_ref` IS the referent's.
+pub struct ByRef<'a, T>(pub &'a T);
+impl<'a, U: ?Sized, T: AsRef<U>> AsRef<U> for ByRef<'a, T> {
+    fn as_ref(&self) -> (r: &U) ensures call_ensures(<T as AsRef<U>>::as_ref, (self.0,), r) { self.0.as_ref() }
+}
+pub fn shim_by_ref<T>(t: &T) -> (r: ByRef<T>) ensures r.0 == t { ByRef(t) }
+// src/keyspace/mod.rs `impl AsRef<Keyspace> for Keyspace { fn as_ref(&self) -> &Self { self } }`; byteview `impl AsRef<[u8]> for Slice` (the bytes)
+impl AsRef<Keyspace> for Keyspace { fn as_ref(&self) -> (r: &Keyspace) ensures r == self { self } }
+impl AsRef<[u8]> for Slice { #[verifier::external_body] fn as_ref(&self) -> (r: &[u8]) ensures r@ == self@ { unimplemented!() } }
+/// how the local write log of keyspace `ks` may differ after a read-modify-write: untouched, or exactly one more entry of kind `vt`
+pub open spec fn rmw_log(o: &BaseTransaction, n: &BaseTransaction, ks: u64, vt: ValueType) -> bool {
+    n.memtables.view@ == o.memtables.view@.insert(ks, (if o.memtables.view@.dom().contains(ks) { o.memtables.view@[ks] } else { Seq::empty() }).push(LocalW { seqno: o.seqno, vt }))
+}
+//@extract src/tx/write_tx.rs :: BaseTransaction :: fetch_update world props=C08
+//@refarg get
+//@world self.get
+//@contract
+    requires ks_ok(keyspace), old(self).seqno < u64::MAX, forall|a: Option<&UserValue>| f.requires((a,)),
+    ensures
+        tx_reads(*old(w), *final(w), old(self).nonce.instant), final(self).nonce == old(self).nonce,
+        // fetch_update returns what the transaction saw under the key BEFORE the update (its own earlier writes over its snapshot)
+        r matches Ok(v) ==> exists|kb: UserKey| #![trigger kb@] call_ensures(<K as Into<UserKey>>::into, (key,), kb) && oview(v) == tx_view(old(self), keyspace.id, kb@), // [C08:fetch_update-returns-the-previous-value]
+        // and it writes at most once: a value if the closure returned one, a tombstone if it returned None over an existing value, else nothing
+        r is Ok ==> final(self).memtables.view@ == old(self).memtables.view@ || rmw_log(old(self), final(self), keyspace.id, ValueType::Value) || rmw_log(old(self), final(self), keyspace.id, ValueType::Tombstone), // [C08:rmw-writes-at-most-once]
+        r is Err ==> final(self).memtables.view@ == old(self).memtables.view@, // [C08:failed-rmw-writes-nothing]
+//@end
+
+/// `Option::as_ref` as a value
+pub open spec fn oref(o: &Option<UserValue>) -> Option<&UserValue> { match o { Some(x) => Some(x), None => None } }
+//@extract src/tx/write_tx.rs :: BaseTransaction :: update_fetch world props=C08
+//@refarg get
+//@world self.get
+//@contract
+    requires ks_ok(keyspace), old(self).seqno < u64::MAX, forall|a: Option<&UserValue>| f.requires((a,)),
+    ensures
+        tx_reads(*old(w), *final(w), old(self).nonce.instant), final(self).nonce == old(self).nonce,
+        // update_fetch returns the NEW value: what the closure made of the value the transaction saw under the key
+        r matches Ok(v) ==> exists|kb: UserKey, pv: Option<UserValue>| #![trigger kb@, oref(&pv)] call_ensures(<K as Into<UserKey>>::into, (key,), kb)
+            && oview(pv) == tx_view(old(self), keyspace.id, kb@) && exists|u: Option<UserValue>| f.ensures((oref(&pv),), u) && oview(u) == oview(v), // [C08:update_fetch-returns-the-new-value]
+        r is Ok ==> final(self).memtables.view@ == old(self).memtables.view@ || rmw_log(old(self), final(self), keyspace.id, ValueType::Value) || rmw_log(old(self), final(self), keyspace.id, ValueType::Tombstone), // [C08:rmw-writes-at-most-once]
+        r is Err ==> final(self).memtables.view@ == old(self).memtables.view@, // [C08:failed-rmw-writes-nothing]
+//@proof before let key = key.into()
+        let ghost k_in = key;
+//@proof after let updated = f(
+        let ghost key0 = key; let ghost prev0 = prev;
+        proof { assert(call_ensures(<K as Into<UserKey>>::into, (k_in,), key0)); assert(f.ensures((oref(&prev0),), updated)); }
+//@end
+//@extract src/tx/write_tx.rs :: BaseTransaction :: take world props=C08
+//@world self.fetch_update
+//@contract
+    requires ks_ok(keyspace), old(self).seqno < u64::MAX,
+    ensures
+        tx_reads(*old(w), *final(w), old(self).nonce.instant), final(self).nonce == old(self).nonce,
+        r matches Ok(v) ==> exists|kb: UserKey| #![trigger kb@] call_ensures(<K as Into<UserKey>>::into, (key,), kb) && oview(v) == tx_view(old(self), keyspace.id, kb@), // [C08:take-returns-the-previous-value]
+        r is Ok ==> final(self).memtables.view@ == old(self).memtables.view@ || rmw_log(old(self), final(self), keyspace.id, ValueType::Value) || rmw_log(old(self), final(self), keyspace.id, ValueType::Tombstone), // [C08:rmw-writes-at-most-once]
+//@end
+
 //@canary
 } // verus!
 fn main() {}
